@@ -1,6 +1,7 @@
 import Drand
 open Drand.Driver.AggD
 open Drand.Driver.CacheD
+open Drand.Driver.CbStoreD
 open Drand.Driver.ChainD
 open Drand.Driver.CodecD
 open Drand.Driver.CrashD
@@ -13,6 +14,7 @@ open Drand.Driver.NetD
 open Drand.Driver.RouteD
 open Drand.Driver.SecrecyD
 open Drand.Driver.StoreD
+open Drand.Driver.StreamD
 open Drand.Driver.SyncD
 open Drand.Driver.TimeD
 
@@ -54,6 +56,9 @@ def main (args : List String) : IO UInt32 := do
   | ["dkgsm"] => loopState stdin stdout dkgStep {}; return 0
   | ["net"] => loopState stdin stdout netStep {}; return 0
   | ["cache"] => loopState stdin stdout cacheStep (Drand.Beacon.Cache.empty 96); return 0
+  | ["stream", backend] => loopState stdin stdout streamStep' (streamDrvInit backend "asis"); return 0
+  | ["stream", backend, variant] => loopState stdin stdout streamStep' (streamDrvInit backend variant); return 0
+  | ["cbstore"] => loopState stdin stdout cbStep cbDrvInit; return 0
   | ["chain", backend] =>
     let (cap, st) := chainInit backend
     loopState stdin stdout (chainStep cap) st; return 0
